@@ -106,12 +106,15 @@ def evaluate_lazy(x: Any) -> Any:
     """Evaluate a lazy object."""
     if isinstance(x, _LazyFunction):
         return x.evaluate()
-    if isinstance(x, dict):
+    # Only plain builtin containers are rebuilt. An instance of a subclass (NamedTuple,
+    # Counter, OrderedDict, ...) is a user value that cannot be reconstructed from its items.
+    container_type = type(x)
+    if container_type is dict:
         return {k: evaluate_lazy(v) for k, v in x.items()}
-    if isinstance(x, tuple):
+    if container_type is tuple:
         return tuple(evaluate_lazy(v) for v in x)
-    if isinstance(x, list):
+    if container_type is list:
         return [evaluate_lazy(v) for v in x]
-    if isinstance(x, set):
+    if container_type is set:
         return {evaluate_lazy(v) for v in x}
     return x
